@@ -607,15 +607,18 @@ def phase_folder(chk, n):
         for c, src in (('lib-crate', lib), ('app', app)):
             (d / 'ws' / c / 'src').mkdir(parents=True)
             (d / 'ws' / c / 'src' / 'lib.rs').write_text(src)
-        for lang, extra in (('typescript', []), ('kotlin', ['--java-package', 'com.p']), ('swift', []), ('python', []), ('go', ['--go-package', 'p'])):
-            out = d / f'out_{lang}'
+        # Kotlin twice: the second time under a prefix - the import lines then carry it (`import com.p.lib_crate.KPItem0`, fix 26 of /repo)
+        for label, extra in (('typescript', []), ('kotlin', ['--java-package', 'com.p']), ('kotlin+prefix', ['--java-package', 'com.p', '--kotlin-prefix', 'KP']),
+                             ('swift', []), ('python', []), ('go', ['--go-package', 'p'])):
+            lang = label.split('+')[0]
+            out = d / f'out_{label}'
             out.mkdir()
             p = subprocess.run(['timeout', '30', str(vf.TYPESHARE), '--lang', lang] + extra + ['--output-folder', str(out), str(d / 'ws')], capture_output=True, text=True)
             chk.evaluations += 1
-            chk.count(f'folder.{lang}')
-            payload = {'phase': 'folder', 'lang': lang, 'imports_written_as': how, 'types': nt, 'lib-crate/src/lib.rs': lib, 'app/src/lib.rs': app}
+            chk.count(f'folder.{label}')
+            payload = {'phase': 'folder', 'lang': lang, 'configuration': label, 'imports_written_as': how, 'types': nt, 'lib-crate/src/lib.rs': lib, 'app/src/lib.rs': app}
             if p.returncode != 0:
-                chk.violation(f'folder-{k}-{lang}', dict(payload, rc=p.returncode, stderr=p.stderr[-300:]), f'{lang}: the real binary fails on a plain two-crate workspace in folder mode')
+                chk.violation(f'folder-{k}-{label}', dict(payload, rc=p.returncode, stderr=p.stderr[-300:]), f'{lang}: the real binary fails on a plain two-crate workspace in folder mode')
                 continue
             files = {f.name: f.read_text(errors='replace') for f in sorted(out.iterdir()) if f.is_file()}
             lex = vf.model([f'(c10_lex {lang} {S(t)})' for t in files.values()])
@@ -637,10 +640,10 @@ def phase_folder(chk, n):
                     fails.append('head-grammar')
                     why += hg[:2]
                 if fails:
-                    chk.violation(f'folder-{k}-{lang}', dict(payload, file=fn, text=t[:3000], failures=fails, why=why), f'{lang} folder-mode file {fn} is not well-formed: ' + '; '.join(why)[:400])
+                    chk.violation(f'folder-{k}-{label}', dict(payload, file=fn, text=t[:3000], failures=fails, why=why), f'{lang} folder-mode file {fn} is not well-formed: ' + '; '.join(why)[:400])
                     break
             else:
-                chk.nontrivial.add(('folder', lang, how, nt))
+                chk.nontrivial.add(('folder', label, how, nt))
 
 # label None = witness of a REPAIRED class (fixed in /repo): the case is in no class and every judgement must pass
 WITNESSES = [
